@@ -202,7 +202,8 @@ def make_handler():
                                         interface.Property('Label', 's'), interface.Property('Tags', 'as'),
                                         # declared here, bound only by the derived class below
                                         interface.Property('Extra', 's'))
-        iface2 = interface.DBusInterface('org.example.U', interface.Method('N'), interface.Property('Q', 'i'))
+        # (the second interface has a property called P as well: the same NAME on two interfaces, two values)
+        iface2 = interface.DBusInterface('org.example.U', interface.Method('N'), interface.Property('Q', 'i'), interface.Property('P', 's'))
         dbusInterfaces = [iface, iface2]
         P = objects.DBusProperty('P')
         W = objects.DBusProperty('W')
@@ -212,10 +213,15 @@ def make_handler():
         Label = objects.DBusProperty('Label')
         Tags = objects.DBusProperty('Tags')
         Q = objects.DBusProperty('Q', 'org.example.U')
+        PU = objects.DBusProperty('P', 'org.example.U')
+
+        def dbus_M(self):
+            return None
 
         def __init__(self, path):
             objects.DBusObject.__init__(self, path)
             self.P = 'value'
+            self.PU = 'value on U'
             self.W = 'secret'
             self.Count = 0
             self.Enabled = False
@@ -244,7 +250,7 @@ def make_handler():
 
 
 def want_ifs_of(o):
-    w = {'org.example.T': {'P': 'value', 'Count': 0, 'Enabled': False, 'Label': '', 'Tags': []}, 'org.example.U': {'Q': -1}}
+    w = {'org.example.T': {'P': 'value', 'Count': 0, 'Enabled': False, 'Label': '', 'Tags': []}, 'org.example.U': {'Q': -1, 'P': 'value on U'}}
     if (o if isinstance(o, str) else type(o).__name__) == 'Derived':
         w['org.example.V'] = {'R': 'derived'}
         w['org.example.T']['Extra'] = 'extra'
@@ -277,6 +283,17 @@ def query_all(h, conn, exported):
                 got_ifs = {k: v for k, v in ifs.items() if k.startswith('org.example.')}
                 if got_ifs != want_ifs:
                     return 'GetManagedObjects(%s): object %s reported with %r, its interfaces and readable properties are %r' % (q, p, ifs, want_ifs)
+        # an ordinary method call: answered by the object exported there NOW, UnknownObject otherwise (also when the same call was
+        # answered a moment ago, before an unexport)
+        conn.sent.clear()
+        call = message.MethodCallMessage(q, 'M', interface='org.example.T')
+        call.sender = ':1.7'
+        h.handleMethodCallMessage(call)
+        if len(conn.sent) != 1:
+            return 'org.example.T.M on %s: %d replies' % (q, len(conn.sent))
+        unknown = getattr(conn.sent[0], 'error_name', None) == 'org.freedesktop.DBus.Error.UnknownObject'
+        if (q in exported) == unknown:
+            return 'org.example.T.M on %s (%s): answered %s' % (q, 'exported' if q in exported else 'not exported', getattr(conn.sent[0], 'error_name', None) or 'with a method return')
         # Introspect
         conn.sent.clear()
         call = message.MethodCallMessage(q, 'Introspect', interface='org.freedesktop.DBus.Introspectable')
@@ -365,14 +382,62 @@ def changed_property_case():
     if len(conn.sent) != 1 or getattr(conn.sent[0], 'error_name', None):
         return 'GetManagedObjects(/a) after property changes: %r' % [getattr(m, 'error_name', None) for m in conn.sent]
     got = conn.sent[0].body[0].get('/a/b', {})
-    want = {'org.example.T': {'P': 'changed', 'Count': 5, 'Enabled': False, 'Label': '', 'Tags': ['t'], 'Extra': 'extra'}, 'org.example.U': {'Q': -1}, 'org.example.V': {'R': 'derived, later'}}
+    want = {'org.example.T': {'P': 'changed', 'Count': 5, 'Enabled': False, 'Label': '', 'Tags': ['t'], 'Extra': 'extra'}, 'org.example.U': {'Q': -1, 'P': 'value on U'}, 'org.example.V': {'R': 'derived, later'}}
     got = {k: v for k, v in got.items() if k.startswith('org.example.')}
     if got != want:
         return 'GetManagedObjects(/a) after /a/b had P, Tags, R assigned and Count Set remotely reports %r, the current readable properties are %r' % (got, want)
     return None
 
 
+def adapted_object_case():
+    """an application object exported through a registered adapter to IDBusObject: what is visible remotely is the adapter"""
+    from twisted.python import components
+    from txdbus import interface, message, objects
+    h, conn, _classes = make_handler()
+
+    class Thermostat:
+        def __init__(self): self.target = 21
+
+    class ThermostatOnDBus(objects.DBusObject):
+        dbusInterfaces = [interface.DBusInterface('org.example.Thermostat', interface.Method('Target', returns='i'), noRegister=True)]
+
+        def __init__(self, original):
+            objects.DBusObject.__init__(self, '/thermostat')
+            self.original = original
+
+        def dbus_Target(self):
+            return self.original.target
+    try:
+        components.registerAdapter(ThermostatOnDBus, Thermostat, objects.IDBusObject)
+    except ValueError:
+        pass
+    try:
+        h.exportObject(Thermostat())
+    except Exception as e:
+        return 'exporting an object through its registered adapter raised %s: %s' % (type(e).__name__, e)
+    conn.sent.clear()
+    call = message.MethodCallMessage('/thermostat', 'Target', interface='org.example.Thermostat')
+    call.sender = ':1.7'
+    try:
+        h.handleMethodCallMessage(call)
+    except Exception as e:
+        return 'a call to an object exported through its adapter raised %s: %s' % (type(e).__name__, e)
+    if len(conn.sent) != 1 or getattr(conn.sent[0], 'body', None) != [21]:
+        return 'a call to an object exported through its adapter was answered %r' % [(type(m).__name__, getattr(m, 'error_name', None), m.body) for m in conn.sent]
+    conn.sent.clear()
+    try:
+        h.unexportObject('/thermostat')
+    except Exception as e:
+        return 'unexporting an object exported through its adapter raised %s: %s' % (type(e).__name__, e)
+    if len(conn.sent) != 1 or conn.sent[0].member != 'InterfacesRemoved':
+        return 'unexporting an object exported through its adapter announced %r' % [getattr(m, 'member', None) for m in conn.sent]
+    return None
+
+
 def bounded(tier, seed):
+    f = adapted_object_case()
+    if f:
+        return 1, [{'function': 'txdbus.objects.DBusObjectHandler', 'clause': 'history', 'input': ['object exported through an adapter'], 'detail': f}]
     f = changed_property_case()
     if f:
         return 1, [{'function': 'txdbus.objects.DBusObjectHandler', 'clause': 'history', 'input': ['property changes after export'], 'detail': f}]
